@@ -16,7 +16,7 @@ var bisimHook func(c *fw.Ctx)
 func init() {
 	fw.Register(&fw.Check{
 		ID: "C05", Prepare: c05Prepare, Level: "model_checking",
-		Rule: "documents = JSIGHT + every closed selection of 1..2 (quick) / 1..3 (thorough) blocks of the pool, canonical rendering; each is rewritten by every single rewrite (line comment at end of every directive/paren line, comment line / block comment / blank lines before every eligible line, indentation of every directive line in {0,1,4 spaces,tab}, trailing blanks, file-wide CRLF / CR, quoting of every bare parameter, parenthesising the children of every implicitly nesting directive) and, thorough, by every rewrite kind applied everywhere at once; non-trivial = baseline accepted and rewritten text differs; distinct = distinct (document, rewrite) texts",
+		Rule:   "documents = JSIGHT + every closed selection of 1..2 (quick) / 1..3 (thorough) blocks of the pool, canonical rendering; each is rewritten by every single rewrite (line comment at end of every directive/paren line, comment line / block comment / blank lines before every eligible line, indentation of every directive line in {0,1,4 spaces,tab}, trailing blanks, file-wide CRLF / CR, quoting of every bare parameter, parenthesising the children of every implicitly nesting directive) and, thorough, by every rewrite kind applied everywhere at once; non-trivial = baseline accepted and rewritten text differs; distinct = distinct (document, rewrite) texts",
 		Assume: []string{"free text (Description bodies) is excluded from re-indentation, comment insertion and newline rewriting as the property says"},
 		Run:    runC05, QuickCap: 6 * time.Minute, ThoroughCap: 30 * time.Minute,
 	})
@@ -36,12 +36,43 @@ func runC05(c *fw.Ctx) {
 		nodes := doc.Assemble(blocks)
 		r := doc.Render(nodes, doc.DefaultStyle())
 		baseOut := run1(r.Text)
-		check := func(w doc.Rewrite, text string) { c05Judge(c, name, r, baseOut, w, text) }
+		check := func(w doc.Rewrite, textFn func() string) { c05Judge(c, name, r, baseOut, w, textFn) }
 		for _, w := range doc.TextRewrites(r) {
-			check(w, doc.ApplyText(r, w))
+			w := w
+			check(w, func() string { return doc.ApplyText(r, w) })
 		}
 		for _, tw := range doc.TreeRewrites(nodes) {
-			check(tw.W, doc.Text(tw.F))
+			tw := tw
+			check(tw.W, func() string { return doc.Text(tw.F) })
+		}
+		if !c.Quick() && !strings.Contains(name, "+") && len(r.Lines) <= 14 {
+			// "all combinations of the listed rewritings": every unordered pair of single text rewrites
+			// at different places, and every single text rewrite together with a file-wide change of
+			// the line ends (single-selection documents of at most 14 lines)
+			ws := doc.TextRewrites(r)
+			for i, w1 := range ws {
+				if c.Expired() {
+					break
+				}
+				if w1.Line < 0 {
+					continue
+				}
+				for _, nl := range []string{"\r\n", "\r"} {
+					w1, nl := w1, nl
+					check(doc.Rewrite{Kind: w1.Kind + "+newline", Line: w1.Line, Arg: w1.Arg + "|" + nl}, func() string { return composeRewrites(r, []doc.Rewrite{w1}, nl) })
+				}
+				for _, w2 := range ws[i+1:] {
+					if w2.Line < 0 || w2.Line == w1.Line || (w1.Kind == w2.Kind && w1.Arg == w2.Arg) {
+						continue
+					}
+					// one representative argument per kind for the second rewrite keeps the product square-free
+					if w2.Arg != firstArgOf(ws, w2.Kind) {
+						continue
+					}
+					w1, w2 := w1, w2
+					check(doc.Rewrite{Kind: w1.Kind + "+" + w2.Kind, Line: w1.Line, Arg: w1.Arg + "|" + w2.Arg}, func() string { return composeRewrites(r, []doc.Rewrite{w1, w2}, "\n") })
+				}
+			}
 		}
 		if !c.Quick() {
 			// every rewrite of one kind+argument applied at all its positions at once
@@ -59,16 +90,14 @@ func runC05(c *fw.Ctx) {
 			}
 			for _, k := range order {
 				ws := groups[k]
-				text := r.Text
-				// apply from the last line to the first so that line numbers stay valid
-				cur := r
-				_ = cur
-				lines := splitKeep(r)
-				for i := len(ws) - 1; i >= 0; i-- {
-					lines = applyToLines(lines, ws[i])
-				}
-				text = joinLines(lines)
-				check(doc.Rewrite{Kind: ws[0].Kind + "-everywhere", Line: -1, Arg: ws[0].Arg}, text)
+				check(doc.Rewrite{Kind: ws[0].Kind + "-everywhere", Line: -1, Arg: ws[0].Arg}, func() string {
+					// apply from the last line to the first so that line numbers stay valid
+					lines := splitKeep(r)
+					for i := len(ws) - 1; i >= 0; i-- {
+						lines = applyToLines(lines, ws[i])
+					}
+					return joinLines(lines)
+				})
 			}
 		}
 	})
@@ -78,10 +107,11 @@ func runC05(c *fw.Ctx) {
 var corpusC05Hook func(c *fw.Ctx)
 
 // c05Judge runs one rewritten text and compares it with the baseline of the same document.
-func c05Judge(c *fw.Ctx, name string, r *doc.Rendered, baseOut drv.Outcome, w doc.Rewrite, text string) {
+func c05Judge(c *fw.Ctx, name string, r *doc.Rendered, baseOut drv.Outcome, w doc.Rewrite, textFn func() string) {
 	if !c.Next() {
 		return
 	}
+	text := textFn() // built only by the worker that runs the case
 	c.Describe(name + " " + w.String())
 	c.Count("evaluations", 1)
 	if text == r.Text {
@@ -212,4 +242,59 @@ func c05Prepare(tier, dir string) error {
 		return c05PrepareFn(tier, dir)
 	}
 	return nil
+}
+
+func firstArgOf(ws []doc.Rewrite, kind string) string {
+	for _, w := range ws {
+		if w.Kind == kind {
+			return w.Arg
+		}
+	}
+	return ""
+}
+
+// composeRewrites applies several line-level rewrites (at different lines) and then writes the
+// document with the given line end; line ends between two lines of free text stay LF.
+func composeRewrites(r *doc.Rendered, ws []doc.Rewrite, nl string) string {
+	type ln struct {
+		text string
+		kind doc.LineKind
+	}
+	var lines []ln
+	for _, l := range r.Lines {
+		lines = append(lines, ln{r.Text[l.Begin:l.End], l.Kind})
+	}
+	// from the last line to the first so that line numbers stay valid
+	sorted := append([]doc.Rewrite{}, ws...)
+	for i := 0; i < len(sorted); i++ {
+		for j := i + 1; j < len(sorted); j++ {
+			if sorted[j].Line > sorted[i].Line {
+				sorted[i], sorted[j] = sorted[j], sorted[i]
+			}
+		}
+	}
+	for _, w := range sorted {
+		switch w.Kind {
+		case "comment-eol", "trailing":
+			lines[w.Line].text += w.Arg
+		case "indent":
+			lines[w.Line].text = w.Arg + strings.TrimLeft(lines[w.Line].text, " \t")
+		default:
+			var ins []ln
+			for _, t := range strings.Split(w.Arg, "\n") {
+				ins = append(ins, ln{t, doc.LTrivia})
+			}
+			lines = append(lines[:w.Line], append(ins, lines[w.Line:]...)...)
+		}
+	}
+	var b strings.Builder
+	for i, l := range lines {
+		b.WriteString(l.text)
+		if l.kind == doc.LText && i+1 < len(lines) && lines[i+1].kind == doc.LText {
+			b.WriteString("\n")
+		} else {
+			b.WriteString(nl)
+		}
+	}
+	return b.String()
 }
